@@ -170,12 +170,39 @@ func VisitedSetGuard(fn *ssa.Function, isRef func(*ssa.Lookup) bool) (bool, stri
 			if firstUse == nil {
 				firstUse = l
 			}
-			if ok, _ := MustPassThrough(fn, isInsert, func(in ssa.Instruction) bool { return in == firstUse }); !ok {
+			// on every path from the lookup to the use of the looked-up value the key is inserted
+			if !passBetween(l, isInsert, func(in ssa.Instruction) bool { return in == firstUse }) {
 				okAll = false
 			}
 		}
+		// the key is only removed by the activation that inserted it: a removal (direct or deferred) reached when
+		// the key was already present would unmark an outer activation
 		if okAll {
-			return true, fmt.Sprintf("membership test excludes the %d reference lookup(s) and the key is inserted before the referenced value is used", len(refs))
+			var badDel ssa.Instruction
+			Instrs(fn, func(in ssa.Instruction) {
+				var cc *ssa.CallCommon
+				switch x := in.(type) {
+				case *ssa.Call:
+					cc = &x.Call
+				case *ssa.Defer:
+					cc = &x.Call
+				default:
+					return
+				}
+				bi, ok := cc.Value.(*ssa.Builtin)
+				if !ok || bi.Name() != "delete" || len(cc.Args) != 2 || !sameSet(cc.Args[0], t.set) || !sameKey(cc.Args[1]) {
+					return
+				}
+				if reach[in.Block()] {
+					badDel = in
+				}
+			})
+			if badDel != nil {
+				return false, "the key is removed from the visited set on a path where it was already present at entry (the removal is not scoped to the activation that inserted it): a nested cyclic occurrence unmarks the outer one"
+			}
+		}
+		if okAll {
+			return true, fmt.Sprintf("membership test excludes the %d reference lookup(s), the key is inserted before the referenced value is used and only removed by the activation that inserted it", len(refs))
 		}
 	}
 	return false, "a membership test exists but it does not exclude the reference lookup when it holds, or the key is not inserted before the referenced value is followed"
@@ -300,7 +327,57 @@ func GuardedRecursion(p *Prog, fn *ssa.Function, isSet func(ssa.Value) bool) (bo
 			return false, fmt.Sprintf("the insertion at %s is not excluded by a membership test on the same key", p.Pos(a.Pos()))
 		}
 	}
-	return true, fmt.Sprintf("%d recursive call(s) each preceded by an insertion into the in-use set; %d insertion(s) each excluded when the key is already in the set", len(recCalls), len(adds))
+	// removals are scoped to the activation that inserted the key
+	for _, atom := range CondAtoms(fn) {
+		in, ok := atom.(ssa.Instruction)
+		if !ok {
+			continue
+		}
+		s, k, ok := setCall(in, "Has")
+		if !ok || !isSet(s) {
+			continue
+		}
+		reach := ForwardReach(fn.Blocks[0], map[ssa.Value]bool{atom: true}, nil)
+		bad := false
+		visit := func(f *ssa.Function, live func(*ssa.BasicBlock) bool) {
+			Instrs(f, func(x ssa.Instruction) {
+				var cc *ssa.CallCommon
+				switch y := x.(type) {
+				case *ssa.Call:
+					cc = &y.Call
+				case *ssa.Defer:
+					cc = &y.Call
+				default:
+					return
+				}
+				bi, isB := cc.Value.(*ssa.Builtin)
+				if !isB || bi.Name() != "delete" || len(cc.Args) != 2 || !isSet(cc.Args[0]) {
+					return
+				}
+				if !(sameValue(cc.Args[1], k) || ResolveLoad(cc.Args[1]) == ResolveLoad(k) || stableLoads(cc.Args[1], k)) {
+					return
+				}
+				if live(x.Block()) {
+					bad = true
+				}
+			})
+		}
+		visit(fn, func(b *ssa.BasicBlock) bool { return reach[b] })
+		// deferred closures created in fn: the defer statement itself must not be reached
+		Instrs(fn, func(x ssa.Instruction) {
+			d, isD := x.(*ssa.Defer)
+			if !isD || !reach[d.Block()] {
+				return
+			}
+			if g := closureOfValue(d.Call.Value); g != nil {
+				visit(g, func(*ssa.BasicBlock) bool { return true })
+			}
+		})
+		if bad {
+			return false, "a key is removed from the in-use set on a path where it was already present at entry: a nested cyclic reference would unmark the outer one"
+		}
+	}
+	return true, fmt.Sprintf("%d recursive call(s) each preceded by an insertion into the in-use set; %d insertion(s) each excluded when the key is already in the set; removals scoped to the inserting activation", len(recCalls), len(adds))
 }
 
 // SetGuardedResolver checks fn(name, S): when S.Has(name) holds no non-nil result is returned, and every non-nil
@@ -418,4 +495,107 @@ func stableLoads(a, b ssa.Value) bool {
 		}
 	}
 	return false
+}
+
+// DescendingRecursion checks that every direct self-call of fn passes, for parameter idx, an element of a container
+// (a range variable, an indexed element, a map entry): the recursion descends into a structure instead of calling
+// itself on a value it just built, which need not be smaller. It returns the offending call otherwise.
+func DescendingRecursion(p *Prog, fn *ssa.Function, idx int) (bool, string) {
+	n := 0
+	bad := ""
+	Instrs(fn, func(in ssa.Instruction) {
+		c, ok := in.(ssa.CallInstruction)
+		if !ok || c.Common().StaticCallee() != fn || idx >= len(c.Common().Args) {
+			return
+		}
+		n++
+		v := c.Common().Args[idx]
+		for {
+			switch x := v.(type) {
+			case *ssa.MakeInterface:
+				v = x.X
+				continue
+			case *ssa.ChangeType:
+				v = x.X
+				continue
+			case *ssa.ChangeInterface:
+				v = x.X
+				continue
+			}
+			break
+		}
+		elem := false
+		switch x := v.(type) {
+		case *ssa.UnOp:
+			_, elem = x.X.(*ssa.IndexAddr)
+		case *ssa.Index, *ssa.Lookup:
+			elem = true
+		case *ssa.Extract:
+			_, elem = x.Tuple.(*ssa.Next)
+		}
+		if !elem && bad == "" {
+			bad = fmt.Sprintf("the recursive call at %s passes %s, which is not an element of a container being traversed", p.Pos(in.Pos()), describeValue(v))
+		}
+	})
+	if n == 0 {
+		return false, "no direct recursive call found"
+	}
+	if bad != "" {
+		return false, bad
+	}
+	return true, fmt.Sprintf("all %d recursive calls descend into an element of a traversed container", n)
+}
+
+// passBetween: every forward path from instruction from (exclusive) to an instruction satisfying isB executes an
+// instruction satisfying isA first. Back edges are followed too (a loop between the two does not help).
+func passBetween(from ssa.Instruction, isA, isB func(ssa.Instruction) bool) bool {
+	type pos struct {
+		b *ssa.BasicBlock
+		i int
+	}
+	start := from.Block()
+	idx := 0
+	for i, in := range start.Instrs {
+		if in == from {
+			idx = i + 1
+		}
+	}
+	seen := map[*ssa.BasicBlock]bool{}
+	work := []pos{{start, idx}}
+	for len(work) > 0 {
+		w := work[len(work)-1]
+		work = work[:len(work)-1]
+		stopped := false
+		for i := w.i; i < len(w.b.Instrs); i++ {
+			in := w.b.Instrs[i]
+			if isA(in) {
+				stopped = true
+				break
+			}
+			if isB(in) {
+				return false
+			}
+		}
+		if stopped {
+			continue
+		}
+		for _, s := range w.b.Succs {
+			if !seen[s] {
+				seen[s] = true
+				work = append(work, pos{s, 0})
+			}
+		}
+	}
+	return true
+}
+
+func closureOfValue(v ssa.Value) *ssa.Function {
+	switch x := v.(type) {
+	case *ssa.MakeClosure:
+		g, _ := x.Fn.(*ssa.Function)
+		return g
+	case *ssa.Function:
+		return x
+	}
+	return nil
 }
